@@ -3,6 +3,7 @@ import Driver.Util
 import Driver.FastKeccak
 import Aurora.Model.Cac
 import Aurora.Model.HashTrie
+import Aurora.Model.HashTrieBuf
 import Aurora.Model.Joiner
 import Aurora.Model.EncUpload
 /-!
@@ -39,6 +40,18 @@ chunk, addresses `keccak("A" ‖ le64 off ‖ le64 span)` (the joiner never re-h
 position by the encryption model, so files beyond 1 GiB (two intermediate levels with the real
 constants) can be read through the joiner model and the real joiner.  `readall` answers
 `noreadall` there.
+
+**Literal hash-trie writer next to the list model** (plain modes `new`, `new pipe`, `new small`): every
+chunk handed to the list-level `Upload` model is also written into the literal buffer-and-cursor model
+`Aurora.HashTrieBuf` (buffer of the real size `ChunkWithSpanSize*9*2`); after every op the driver
+compares the levels read back out of the buffer by the abstraction function (`State.levels`), the `full`
+flag, the failure status, the wrapped chunks handed to the short pipeline and (at `sum`) the reference
+with the list model and answers `BUF-LIST-MISMATCH` if they ever differ.  In `new small` mode the
+answers of `new small`, `write`, `writeseg`, `sum` carry the literal model's observation of the writer
+(`buf=` buffer length; `cw=` number of `ChainWrite`/`Sum` calls on the trie in this op, `cur=`
+`cursors[1..8]`, `f=` full flag, `live=` digest of `buffer[0:cursors[1]]` after the last of them, `h=`
+chained digest of these snapshots after EVERY call), which the Go runner reads off the real
+`hashTrieWriter` through the `verif` hook `hashtrie.VerifPeek`.
 
 The chunk reference function is `fastBmt` (ByteArray BMT over `Driver.Fast.keccak`), memoised per
 case on the chunk content.  It is cross-checked against the list model `Aurora.Cac.hashWith` by the
@@ -154,6 +167,69 @@ def Synth.lookup (sy : Synth) (a : Bytes) : Option Bytes :=
       (Aurora.Cac.le64 span ++ pl)
     some (c.1 ++ c.2)
 
+/-! ### the literal hash-trie writer (`Aurora.HashTrieBuf`) run next to the list model -/
+
+def realBufLen : Nat := 262152 * 9 * 2       -- `boson.ChunkWithSpanSize*9*2`
+
+set_option compiler.extract_closed false in
+/-- the zeroed buffer, built once per process on first use and shared by all cases
+    (`copyAt` only copies the prefix below the cursor) -/
+def zeroBuf : Thunk Bytes := Thunk.mk fun _ => List.replicate realBufLen 0
+
+structure Lit where
+  s : Aurora.HashTrieBuf.State
+  failed : Bool := false       -- a `ChainWrite` returned an error
+  n : Nat := 0                 -- `ChainWrite`/`Sum` calls since the last flush
+  h : UInt64 := 0              -- chained digest of the snapshots since the last flush
+  last : String := ""
+  nsent : Nat := 0             -- `s.sent` already compared
+
+def fnv (bs : Bytes) : UInt64 :=
+  bs.foldl (fun h b => (h ^^^ b.toUInt64) * 0x100000001b3) 0xcbf29ce484222325
+
+def hex64 (w : UInt64) : String :=
+  String.ofList ((List.range 16).map fun i => Driver.nibble ((w >>> (4 * (15 - i)).toUInt64).toNat % 16))
+
+def Lit.snapStr (l : Lit) : String :=
+  let cs := (List.range 8).map (fun k => toString (l.s.cur (k + 1)))
+  let live := Aurora.HashTrieBuf.slice l.s.buffer 0 (l.s.cur 1)
+  s!"cur={",".intercalate cs} f={if l.s.full then 1 else 0} live={hex64 (fnv live)}"
+
+def Lit.snap (l : Lit) : Lit :=
+  let last := l.snapStr
+  { l with last := last, n := l.n + 1, h := fnv (Aurora.Cac.le64 l.h.toNat ++ last.toUTF8.toList) }
+
+set_option compiler.extract_closed false in
+def Lit.init (_ : Unit) : Lit :=
+  let l : Lit := { s := { buffer := zeroBuf.get, cursors := List.replicate Aurora.HashTrieBuf.nCursors 0 } }
+  { l with last := l.snapStr }
+
+def Lit.flush (l : Lit) : Lit × String :=
+  ({ l with n := 0, h := 0 }, s!"cw={l.n} {l.last} h={hex64 l.h}")
+
+/-- one data chunk: `ChainWrite(le64 span, ref, nil)` on the literal writer -/
+def Lit.feed (P : Aurora.HashTrieBuf.Params) (cref : Bytes → Bytes → Bytes) (l : Lit) (payload : Bytes) : Lit :=
+  if l.failed then l else
+  let e := leafEntry cref payload
+  match Aurora.HashTrieBuf.chainWrite P l.s (Aurora.Cac.le64 e.span) e.ref [] with
+  | .error _ => { l with failed := true }.snap
+  | .ok s' => { l with s := s' }.snap
+
+def isSubseq : List Bytes → List Bytes → Bool
+  | [], _ => true
+  | _ :: _, [] => false
+  | a :: as, b :: bs => if a == b then isSubseq as bs else isSubseq (a :: as) bs
+
+/-- does the literal writer agree with the list model `u` after an op that fed `nchunks` chunks and
+    logged `puts`?  (levels through the abstraction function, `full`, failure, wrapped chunks) -/
+def Lit.agrees (P : Aurora.HashTrieBuf.Params) (l : Lit) (u : Upload) (nchunks : Nat) (checkPuts : Bool) : Bool :=
+  let newSent := l.s.sent.drop l.nsent
+  l.failed == u.failed &&
+  (u.failed ||
+    (l.s.levels P == u.trie.levels.map (fun lv => lv.map (fun e => Aurora.Cac.le64 e.span ++ e.ref)) &&
+     l.s.full == u.trie.full &&
+     (!checkPuts || (u.puts.length == nchunks + newSent.length && isSubseq newSent (u.puts.map (·.2))))))
+
 structure St where
   mode : Mode := .none
   up : Upload := {}
@@ -168,12 +244,8 @@ structure St where
   j : Option J := none
   cache : Std.HashMap Bytes (Except Aurora.Joiner.Err Bytes) := {}   -- encrypted mode: `encGet`, memoised
   synth : Option Synth := none
-
-def fnv (bs : Bytes) : UInt64 :=
-  bs.foldl (fun h b => (h ^^^ b.toUInt64) * 0x100000001b3) 0xcbf29ce484222325
-
-def hex64 (w : UInt64) : String :=
-  String.ofList ((List.range 16).map fun i => Driver.nibble ((w >>> (4 * (15 - i)).toUInt64).toNat % 16))
+  lit : Option Lit := none                    -- the literal hash-trie writer (plain modes)
+  litBad : Bool := false                      -- it disagreed with the list model
 
 def St.params (st : St) : Nat × Nat :=
   match st.mode with
@@ -202,6 +274,26 @@ def St.memoise (st : St) (chunks : List Bytes) : St := Id.run do
       memo := memo.insert (sp ++ p) (fastBmt sp p)
   return { st with memo := memo }
 
+def St.litParams (st : St) : Aurora.HashTrieBuf.Params :=
+  Aurora.HashTrieBuf.plainParams st.cref st.params.2 Aurora.Tree.hashBytes
+
+/-- feed the chunks of one op to the literal writer and compare it with the list model `u` -/
+def St.litStep (st : St) (chunks : List Bytes) (u : Upload) (checkPuts : Bool := true) : St :=
+  match st.lit with
+  | none => st
+  | some l =>
+    let l := chunks.foldl (Lit.feed st.litParams st.cref) l
+    let ok := l.agrees st.litParams u chunks.length checkPuts
+    { st with lit := some (if checkPuts then { l with nsent := l.s.sent.length } else l), litBad := st.litBad || !ok }
+
+/-- the `cw= cur= f= live= h=` field of `new small` mode -/
+def St.litField (st : St) : St × String :=
+  match st.mode, st.lit with
+  | .small _ _, some l =>
+    let (l, f) := l.flush
+    ({ st with lit := some l }, " " ++ f)
+  | _, _ => (st, "")
+
 def St.write1 (st : St) (b : Bytes) : St × Option Int :=
   let (c, bb) := st.params
   if st.mode.isEnc then
@@ -212,6 +304,7 @@ def St.write1 (st : St) (b : Bytes) : St × Option Int :=
   let chunks := (Aurora.Feeder.write c st.up.feeder b).2.1
   let st := st.memoise chunks
   let (u, n) := st.up.write st.cref c bb b
+  let st := st.litStep chunks u
   ({ st with up := u, segsRev := b :: st.segsRev }.drain, n)
 
 def splitEvery (k : Nat) : Nat → Bytes → List Bytes
@@ -300,7 +393,7 @@ def sumEnc (st : St) (ann : List String) : St × String :=
 def step (st : St) (opl : List String) : St × String :=
   let (op, ann) := splitAnnot opl
   match op with
-  | ["new"] => ({ mode := .plain }, "ok")
+  | ["new"] => ({ mode := .plain, lit := some (Lit.init ()) }, "ok")
   | ["new", "enc"] => ({ mode := .enc }, "ok")
   | ["new", "synth", seed, size, period] =>
     match seed.toNat?, size.toNat?, period.toNat? with
@@ -313,10 +406,12 @@ def step (st : St) (opl : List String) : St × String :=
     match c.toNat?, b.toNat? with
     | some c, some b => if c = 0 ∨ c > C ∨ b < 2 ∨ encR * b > encP then (st, "bad-op") else ({ mode := .encsmall c b }, "ok")
     | _, _ => (st, "bad-op")
-  | ["new", "pipe"] => ({ mode := .plain }, "ok")   -- ChunkPipe + FeedPipeline only re-segment the writes
+  | ["new", "pipe"] => ({ mode := .plain, lit := some (Lit.init ()) }, "ok")   -- ChunkPipe + FeedPipeline only re-segment the writes
   | ["new", "small", c, b] =>
     match c.toNat?, b.toNat? with
-    | some c, some b => if c = 0 ∨ c > C ∨ b < 2 then (st, "bad-op") else ({ mode := .small c b }, "ok")
+    | some c, some b => if c = 0 ∨ c > C ∨ b < 2 then (st, "bad-op") else
+      let l := Lit.init ()
+      ({ mode := .small c b, lit := some l }, s!"ok buf={realBufLen} {l.last}")
     | _, _ => (st, "bad-op")
   | ["selftest", src] =>
     match Driver.parseSrc src with
@@ -339,8 +434,11 @@ def step (st : St) (opl : List String) : St × String :=
     | some b =>
       let (st, n) := st.write1 b
       match n with
-      | some n => (st, toString n)
-      | none => ({ st with failed := true }, "err")
+      | some n =>
+        if st.litBad then (st, "BUF-LIST-MISMATCH") else
+        let (st, f) := st.litField
+        (st, toString n ++ f)
+      | none => if st.litBad then (st, "BUF-LIST-MISMATCH") else ({ st with failed := true }, "err")
   | ["writeseg", src, k] =>
     if st.summed then (st, "summed") else
     if st.failed then (st, "err") else
@@ -353,7 +451,11 @@ def step (st : St) (opl : List String) : St × String :=
         match n with
         | some n => (s, acc.2.1 + n, true)
         | none => (s, acc.2.1, false)) (st, 0, true)
-      if ok then (st, toString tot) else ({ st with failed := true }, "err")
+      if st.litBad then (st, "BUF-LIST-MISMATCH") else
+      if ok then
+        let (st, f) := st.litField
+        (st, toString tot ++ f)
+      else ({ st with failed := true }, "err")
     | _, _ => (st, "bad-op")
   | ["sum"] =>
     if st.summed then (st, "summed") else
@@ -363,7 +465,25 @@ def step (st : St) (opl : List String) : St × String :=
     let chunks := (Aurora.Feeder.sum st.up.feeder).2
     let st := st.memoise chunks
     let (u, r) := st.up.sum st.cref bb
+    -- the literal writer: the flushed chunks, then `Sum()`
+    let st := st.litStep chunks u false
+    let (st, litRef) : St × Option Bytes :=
+      match st.lit with
+      | none => (st, r)
+      | some l =>
+        if l.failed then (st, none) else
+        match Aurora.HashTrieBuf.trieSum st.litParams l.s with
+        | .error _ => ({ st with lit := some l.snap }, none)
+        | .ok (ref, s') =>
+          let l := { l with s := s' }.snap
+          -- all wrapped chunks of this op (flush + `Sum`) against the list model's Put log
+          let newSent := s'.sent.drop l.nsent
+          let okSent := u.failed ||
+            (u.puts.length == chunks.length + newSent.length && isSubseq newSent (u.puts.map (·.2)))
+          ({ st with lit := some l, litBad := st.litBad || !okSent }, some ref)
+    let st := { st with litBad := st.litBad || litRef != r }
     let st := { st with up := u, summed := true }.drain
+    if st.litBad then ({ st with failed := r.isNone }, "BUF-LIST-MISMATCH") else
     match r with
     | none => ({ st with failed := true }, "err")
     | some ref =>
@@ -372,7 +492,9 @@ def step (st : St) (opl : List String) : St × String :=
       let st := { st with root := some ref }
       if spec ≠ some ref then
         (st, s!"SPEC-MISMATCH model={Driver.bytesToHex ref} spec={match spec with | some s => Driver.bytesToHex s | none => "none"}")
-      else (st, s!"ok {Driver.bytesToHex ref} {st.nputs} {hex64 st.pdig}")
+      else
+        let (st, f) := st.litField
+        (st, s!"ok {Driver.bytesToHex ref} {st.nputs} {hex64 st.pdig}" ++ f)
   | ["open"] =>
     match st.root with
     | none => (st, "nosum")
